@@ -13,6 +13,7 @@ tools:
 	cd harness && $(GOENVV) go build -o ../.work/vharness .
 
 coq: tools
+	mkdir -p coq/Gen
 	.work/genconsts coq/Gen/Consts.v $(REPO)
 	cd coq && coq_makefile -f _CoqProject -o Makefile
 	cd coq && timeout 3000 $(MAKE) -j16
